@@ -44,7 +44,7 @@ func c17Value(r *core.Rng) val.Value {
 		n := r.Intn(8)
 		s := ""
 		for i := 0; i < n; i++ {
-			s += []string{"a", "1", " ", "\n", "\"", ",", "[", "é", "-", ".", "e"}[r.Intn(11)]
+			s += []string{"a", "1", " ", "\n", "\"", ",", "[", "é", "-", ".", "e", "%", "%d", "%v%", "%%", "\t", "{}"}[r.Intn(17)]
 		}
 		return val.StrV(s)
 	case 7:
